@@ -984,8 +984,13 @@ class SyncObj(object):
                 if not self.__serializer.setTransmissionData(serialized):
                     # Incomplete snapshot - nothing in our log was verified, keep commit index
                     return
-                self.__loadDumpFile(clearJournal=True)
-                self.__sendNextNodeIdx(node, success=True)
+                snapshotIdx = self.__loadDumpFile(clearJournal=True)
+                if snapshotIdx is None:
+                    # Not loaded - must not be acknowledged
+                    return
+                self.__sendNextNodeIdx(node, nextNodeIdx=snapshotIdx + 1, success=True)
+                # Log entries that follow the snapshot position are kept, but they are not verified yet
+                leaderCommitIndex = min(leaderCommitIndex, snapshotIdx)
 
             if leaderCommitIndex > self.__raftCommitIndex:
                 self.__raftCommitIndex = min(leaderCommitIndex, self.__getCurrentLogIndex())
@@ -1421,8 +1426,15 @@ class SyncObj(object):
         self.__serializer.serialize((data, lastAppliedEntries[1], lastAppliedEntries[0], cluster), lastAppliedEntries[0][1])
 
     def __loadDumpFile(self, clearJournal):
+        # Returns the log index covered by the loaded dump, None if it could not be loaded.
         try:
             data = self.__serializer.deserialize()
+            if clearJournal and data[0] is not None and data[1][1] <= self.__raftLastApplied:
+                # A snapshot received from the leader that is not newer than our own state (the leader acted
+                # on an outdated reply). Installing it would move the state backwards and drop log entries
+                # that were already acknowledged. Our dump file has been replaced by it - write a new one soon.
+                self.__forceLogCompaction = True
+                return data[1][1]
             if data[0] is not None:
                 if self.__consumers:
                     selfData = data[0][0]
@@ -1437,14 +1449,14 @@ class SyncObj(object):
                 for i, consumer in enumerate(self.__consumers):
                     consumer._deserialize(consumersData[i])
 
-            if not clearJournal and len(self.__raftLog) >= 2 and self.__raftLog[0] != data[2] and \
+            if len(self.__raftLog) >= 2 and self.__raftLog[0] != data[2] and \
                     self.__getEntries(data[2][1], 2) == [data[2], data[1]]:
-                # The node was stopped after this dump had been written but before the journal
-                # was trimmed: trim it now instead of dropping the entries that follow the dump.
+                # The log already contains the entries of the dump (the node was stopped after the dump had
+                # been written but before the journal was trimmed, or the leader sent a snapshot of a
+                # position we have): trim the log instead of dropping the entries that follow the dump.
                 self.__deleteEntriesTo(data[2][1])
 
-            if clearJournal or \
-                    len(self.__raftLog) < 2 or \
+            if len(self.__raftLog) < 2 or \
                     self.__raftLog[0] != data[2] or \
                     self.__raftLog[1] != data[1]:
                 self.__raftLog.clear()
@@ -1456,8 +1468,10 @@ class SyncObj(object):
             if self.__conf.dynamicMembershipChange:
                 self.__updateClusterConfiguration([node for node in data[3] if node != self.__selfNode])
             self.__onSetCodeVersion(self.__enabledCodeVersion)
+            return data[1][1]
         except:
             logger.exception('failed to load full dump')
+            return None
 
     def __updateClusterConfiguration(self, newNodes):
         # newNodes: list of Node or node ID
